@@ -30,7 +30,26 @@ func CopyMessage(out, in interface{}) error {
 	pmOut.Reset()
 	// This will check that types are compatible and return an error if not.
 	// Unlike proto.Merge, this allows one or the other to be a dynamic message.
-	return dynamic.TryMerge(pmOut, pmIn)
+	if err := dynamic.TryMerge(pmOut, pmIn); err != nil {
+		return err
+	}
+	if isDynamic(pmIn) || isDynamic(pmOut) {
+		// Merging to or from a dynamic message copies bytes fields by
+		// reference. Re-decode from the wire format so that the copy shares
+		// no memory with the original.
+		b, err := proto.Marshal(pmIn)
+		if err != nil {
+			return err
+		}
+		pmOut.Reset()
+		return proto.Unmarshal(b, pmOut)
+	}
+	return nil
+}
+
+func isDynamic(m proto.Message) bool {
+	_, ok := m.(*dynamic.Message)
+	return ok
 }
 
 // CloneMessage returns a copy of the given value.
@@ -40,8 +59,20 @@ func CloneMessage(m interface{}) (interface{}, error) {
 		return nil, fmt.Errorf("value to clone is not a proto.Message: %T; use a custom cloner", m)
 	}
 
-	// this does a proper deep copy
-	return proto.Clone(pm), nil
+	clone := proto.Clone(pm)
+	if isDynamic(pm) {
+		// for dynamic messages the clone shares the backing arrays of bytes
+		// fields with the original; re-decode it for a proper deep copy
+		b, err := proto.Marshal(pm)
+		if err != nil {
+			return nil, err
+		}
+		clone.Reset()
+		if err := proto.Unmarshal(b, clone); err != nil {
+			return nil, err
+		}
+	}
+	return clone, nil
 }
 
 // ClearMessage resets the given value to its zero-value state. It returns an error
